@@ -2,7 +2,7 @@
    the two documents and the edit list the real ComputeEdits returned; these functions
    compare it with the model (edit list for edit list) and evaluate the specification
    ([lsp_apply], order, in-document) on the REAL edits.  No theorems here. *)
-From Regal Require Export Model.LspApply.
+From Regal Require Export Model.LspApply Model.FormatFlow.
 Open Scope Z_scope.
 
 (* (start line, start char, end line, end char, new text) *)
@@ -69,6 +69,113 @@ Definition case_rounds (c : c16_case) : Z :=
           (lines_get (lines_map la)) (lines_get (lines_map lb)) (S (length la)) with
   | Ok tr => Z.of_nat (length tr) - 1
   | _ => -1
+  end.
+
+(* ---- server-level flows (Model/FormatFlow.v): the harness drives the real server over JSON-RPC
+   (didOpen / didChange, textDocument/formatting, workspace/executeCommand -> workspace/applyEdit,
+   workspace/didCreateFiles -> workspace/applyEdit) and records, per case, the text the CLIENT holds,
+   the oracles (formatter / fix / template output for that text, disk state, workspace position),
+   the answer, and the server's copy of the document afterwards ---- *)
+
+Inductive flow_obs :=
+| OEdits (got : list go_edit)   (* an edit list (possibly empty) *)
+| ONullR                        (* null *)
+| OErrorR                       (* error response / window/showMessage *)
+| OSilent.                      (* no workspace/applyEdit *)
+
+Inductive flow_query :=
+| QFormat (k : formatter_kind) (in_root ignored : bool) (disk template : option str) (fmt : oracle_out)
+| QFix (fixo : oracle_out)
+| QTemplate (in_root : bool) (disk template : option str).
+
+(* [cache]: the client's text as the server should hold it (None: never sent);
+   [after]: the server's copy after the operation *)
+Inductive flow_case := FlowCase (q : flow_query) (cache : option str) (obs : flow_obs) (after : option str).
+
+Definition model_flow (q : flow_query) (cache : option str) : flow_out :=
+  match q with
+  | QFormat k in_root ignored disk template fmt =>
+      formatting_flow k in_root ignored disk template (fun _ => fmt) cache
+  | QFix fixo => fix_flow (fun _ => fixo) cache
+  | QTemplate in_root disk template => template_worker_flow in_root disk template cache
+  end.
+
+Definition opt_str_eqb (a b : option str) : bool :=
+  match a, b with
+  | Some x, Some y => str_eqb x y
+  | None, None => true
+  | _, _ => false
+  end.
+
+(* model = implementation: same kind of answer, same edit list, same stored text *)
+Definition flow_agrees (c : flow_case) : bool :=
+  let '(FlowCase q cache obs after) := c in
+  match model_flow q cache, obs with
+  | FEdits es _ stored, OEdits got =>
+      edits_eqb es got &&
+      match stored with
+      | Some t => opt_str_eqb after (Some t)
+      | None => opt_str_eqb after cache
+      end
+  | FEmpty, OEdits [] => opt_str_eqb after cache
+  | FNull, ONullR => opt_str_eqb after cache
+  | FError, OErrorR => opt_str_eqb after cache
+  | FSilent, OSilent => opt_str_eqb after cache
+  | _, _ => false
+  end.
+
+(* the text the server is to intend, from the oracles alone *)
+Definition intended_text (q : flow_query) (cache : option str) : str :=
+  let old := content cache in
+  match q with
+  | QFormat k in_root ignored disk template fmt =>
+      if is_empty old then
+        if in_root then old
+        else match template_guard (negb ignored && is_some cache) disk template with
+             | Some t => t
+             | None => old
+             end
+      else match k, fmt with
+           | KUnknown, _ => old
+           | _, ONew n => n
+           | _, _ => old
+           end
+  | QFix fixo => match cache, fixo with Some _, ONew n => n | _, _ => old end
+  | QTemplate in_root disk template =>
+      if in_root then old
+      else match cache with
+           | Some [] => match template_guard true disk template with Some t => t | None => old end
+           | _ => old
+           end
+  end.
+
+(* the property itself on the REAL edits: applied to the client's text they give the intended text,
+   which is also what the server holds afterwards if it changed its copy *)
+Definition flow_meets_spec (c : flow_case) : bool :=
+  let '(FlowCase q cache obs after) := c in
+  match obs with
+  | OEdits got =>
+      let es := map edit_of_go got in
+      match lsp_apply es (content cache) with
+      | Some r =>
+          str_eqb r (intended_text q cache) &&
+          (opt_str_eqb after cache || opt_str_eqb after (Some r))
+      | None => false
+      end && edits_ordered es && forallb (edit_in_doc (content cache)) es
+  | _ => opt_str_eqb after cache
+  end.
+
+(* run-time instance of the flow theorems *)
+Definition flow_model_meets_spec (c : flow_case) : bool :=
+  let '(FlowCase q cache _ _) := c in
+  match model_flow q cache with
+  | FEdits es intended stored =>
+      match lsp_apply es (content cache) with
+      | Some r => str_eqb r intended && str_eqb intended (intended_text q cache)
+      | None => false
+      end && edits_ordered es && forallb (edit_in_doc (content cache)) es
+  | FBroken => false
+  | _ => true
   end.
 
 (* ---- named constants for the generated case files (number literals are slow to parse) ---- *)
